@@ -237,8 +237,15 @@ def check_verdicts(idx, run):
               "refused or mapped to 'independent'", loc(mod, func))
 
 
+
+PREDICATES = [
+    ('psyclone.core.symbolic_maths.SymbolicMaths', 'never_equal', True),
+]
+
 def check(idx, run):
     run.explanation = __doc__
+    from sa.guards import check_predicates
+    check_predicates(idx, run, "C17.R3", PREDICATES)
     check_translation(idx, run)
     check_verdicts(idx, run)
     run.assumptions = ["SymPy simplification / solving is correct"]
